@@ -132,6 +132,9 @@ def case_strategy(draw, tier):
         "funding": draw(st.sampled_from([[0, 1], [0, 1], [0], [1]])),
         "change_acct": draw(st.integers(0, 1)),
         "sign": draw(st.integers(0, 4)) > 0,
+        # fault injection: the key lookup of the k-th signed input fails (locked / encrypted account, key not in the wallet).
+        # Outside "never fails in any other way" (that clause is about funding), but "after ANY failure nothing stays reserved"
+        "sign_fault": draw(st.sampled_from([None] * 7 + [0, 1, 3])),
     }
 
 
@@ -305,11 +308,34 @@ async def run_async(case, out):
         out.nontrivial = True
     tx = None
     err = None
+
+    class SignFault(Exception):
+        pass
+    fault_at = case.get("sign_fault")
+    orig_lookup = ledger.get_private_key_for_address
+    if fault_at is not None and case["sign"]:
+        calls = [0]
+
+        async def failing_lookup(wallet, address):
+            calls[0] += 1
+            if calls[0] > fault_at:
+                raise SignFault("key for %s is not available (injected)" % address)
+            return await orig_lookup(wallet, address)
+        ledger.get_private_key_for_address = failing_lookup
     try:
         tx = await Transaction.create(inputs, requested, funding, change_account, sign=case["sign"])
     except InsufficientFundsError as e:
         err = e
+    except SignFault:
+        out.label("sign_fault_injected")
+        reserved_after = await env.reserved_ids()
+        out.check(reserved_after <= reserved_before | {m["txo"].id for m in pre},
+                  "reservation-leak-after-failure:while-signing",
+                  "new reserved %r" % list(reserved_after - reserved_before)[:3])
+        ledger.get_private_key_for_address = orig_lookup
+        return
     except Exception as e:  # "never fails in any other way"
+        ledger.get_private_key_for_address = orig_lookup
         import traceback
         tb = traceback.extract_tb(e.__traceback__)
         where = "%s:%s" % (tb[-1].filename.split("/")[-1], tb[-1].name)
@@ -319,6 +345,7 @@ async def run_async(case, out):
                   "reservation-leak-after-failure", "new reserved %r" % list(reserved_after - reserved_before)[:3])
         return
 
+    ledger.get_private_key_for_address = orig_lookup
     coc_max = (4 + 3 + 3 + 4 + 34) * rate
     slack = 5 * (coc_max + 1) + coc_max + DUST
 
@@ -459,5 +486,5 @@ def run_case(case):
 
 PARTS = [
     Part("create", lambda tier: case_strategy(tier), run_case, 500, 5000, quick_shards=8, thorough_shards=16,
-         essential=("built", "insufficient", "change", "no_change", "prechosen", "target_derived")),
+         essential=("built", "insufficient", "change", "no_change", "prechosen", "target_derived", "sign_fault_injected")),
 ]
